@@ -1,7 +1,7 @@
 (* Correspondence checker for C20: the model (terms substitution, layout scanner, regexp matcher,
    time.Parse, adjustYear/adjustDate, first-match, parseLqlDateTime) is run on the texts the real
    code parsed; the instants (and the index of the claiming format) are compared. *)
-From LR Require Export lib.Base model.GoTime model.Regex model.DateFmt model.LqlTime gen.DateTables.
+From LR Require Export lib.Base model.GoTime model.Regex model.DateFmt model.LqlTime gen.DateTables model.LineParse.
 Open Scope Z_scope.
 
 (* the two compiled lists (NewParser), computed once *)
@@ -32,7 +32,9 @@ Inductive case :=
 (* the same, lit = the k-th LQL format written for c, possibly with blanks around *)
 | KLqlSelf (k : nat) (c : civil) (now : Z * Z * Z) (lit : bytes) (obs : option Z)
 (* a relative literal: time.Now() was in [lo, hi] (Unix nanoseconds) around the call that returned obs *)
-| KRel (lit : bytes) (lo hi obs slack : Z).
+| KRel (lit : bytes) (lo hi obs slack : Z)
+(* a file of lines read through the collector's line parser (default format list): the date of every record, None = zero time *)
+| KLines (now : Z * Z * Z) (lines : list bytes) (obs : list (option (Z * Z))).
 
 Definition lql_obs_ok (r : lres) (obs : option Z) : bool :=
   match r, obs with
@@ -69,6 +71,7 @@ Definition check (c : case) : bool :=
       | LRel d => (lo - d - slack <=? obs) && (obs <=? hi - d + slack)
       | _ => false
       end
+  | KLines now lines obs => list_eqb (option_eqb zz_eqb) (snd (lp_run now known_c lp_init lines)) obs
   end.
 
 Definition mismatches (l : list case) : list nat := mismatches_of check l.
